@@ -13,6 +13,12 @@ type DynamicFanOut[T any] struct {
 	closed  bool
 	mutex   sync.Mutex
 	outputs map[int64]chan T
+
+	// dones has one entry per output (inserted and deleted together with it, under mutex). DespawnOutput closes the
+	// entry before it waits for mutex, so that run never stays blocked on an output that is being removed.
+	// doneMutex guards the map and the close; it is never held while blocking (lock order: mutex, then doneMutex).
+	doneMutex sync.Mutex
+	dones     map[int64]chan struct{}
 }
 
 func NewDynamicFanOut[T any](input <-chan T) *DynamicFanOut[T] {
@@ -21,6 +27,7 @@ func NewDynamicFanOut[T any](input <-chan T) *DynamicFanOut[T] {
 		inputCap: cap(input),
 		outputs:  make(map[int64]chan T),
 		mutex:    sync.Mutex{},
+		dones:    make(map[int64]chan struct{}),
 	}
 	go f.run()
 	return &f
@@ -29,8 +36,19 @@ func NewDynamicFanOut[T any](input <-chan T) *DynamicFanOut[T] {
 func (f *DynamicFanOut[T]) run() {
 	for e := range f.input {
 		f.mutex.Lock()
-		for _, o := range f.outputs {
-			o <- e
+		for id, o := range f.outputs {
+			f.doneMutex.Lock()
+			done := f.dones[id]
+			f.doneMutex.Unlock()
+			select {
+			case <-done: // being removed: skip it from now on (it has received a gap-free prefix)
+				continue
+			default:
+			}
+			select {
+			case o <- e:
+			case <-done:
+			}
 		}
 		f.mutex.Unlock()
 	}
@@ -65,12 +83,25 @@ func (f *DynamicFanOut[T]) SpawnOutput() (int64, <-chan T, error) {
 	}
 
 	f.outputs[id] = newChan
+	f.doneMutex.Lock()
+	f.dones[id] = make(chan struct{})
+	f.doneMutex.Unlock()
 	f.mutex.Unlock()
 	return id, newChan, nil
 }
 
 // DespawnOutput removes output channel with given ID
 func (f *DynamicFanOut[T]) DespawnOutput(id int64) error {
+	f.doneMutex.Lock()
+	if done, ok := f.dones[id]; ok {
+		select {
+		case <-done: // already closed by a concurrent DespawnOutput of the same id
+		default:
+			close(done) // wakes run if it is blocked on this output
+		}
+	}
+	f.doneMutex.Unlock()
+
 	f.mutex.Lock()
 	defer f.mutex.Unlock()
 
@@ -80,6 +111,9 @@ func (f *DynamicFanOut[T]) DespawnOutput(id int64) error {
 	}
 	close(c)
 	delete(f.outputs, id)
+	f.doneMutex.Lock()
+	delete(f.dones, id)
+	f.doneMutex.Unlock()
 
 	return nil
 }
